@@ -23,7 +23,19 @@ def impl(case):
     try:
         Z = g.agenda()
         out["Z"] = [[common.enc_sym(k), common.enc_w(v, R)] for k, v in Z.items()]
-        ln = locally_normalize(common.mk_cfg(case["cfg"], R))
+        k = case.get("split")
+        if k is None:
+            gl = common.mk_cfg(case["cfg"], R)
+        else:
+            # the grammar object is GROWN after it has been trimmed / cotrimmed / evaluated once (memoised results must follow)
+            gl = common.mk_cfg(dict(case["cfg"], rules=case["cfg"]["rules"][:k]), R)
+            try:
+                gl.cotrim(); gl.trim(); gl.agenda()
+            except Exception:  # noqa
+                pass
+            for w, hd, b in case["cfg"]["rules"][k:]:
+                gl.add(common.mk_w(w, R), common.dec_sym(hd), *[common.dec_sym(y) for y in b])
+        ln = locally_normalize(gl)
         out["ln"] = common.enc_cfg(ln, R)
     except Exception as e:  # noqa
         out["ln"] = {"exc": type(e).__name__, "msg": str(e)[:200]}
@@ -48,7 +60,8 @@ def make_case(rng, i, tier):
         desc = {"S": "S", "V": ["a", "b"], "rules": [[p, "S", ["S", "S"]], [q, "S", ["A"]], ["1/2", "A", ["a"]], ["1/2", "A", ["b", "A"]]]}
         shape = "improper_pcfg"
     xs = gen.gen_strings(rng, desc, k=5, maxlen=3 if tier == "quick" else 4)
-    return {"id": i, "shape": shape, "R": "Float", "cfg": desc, "xs": xs}
+    split = rng.randint(1, len(desc["rules"]) - 1) if rng.random() < 0.3 and len(desc["rules"]) >= 2 else None
+    return {"id": i, "shape": shape, "R": "Float", "cfg": desc, "xs": xs, "split": split}
 
 
 def run(ctx):
